@@ -2,6 +2,14 @@
 // position of the node and the state of the write buffer; strings of arbitrary bytes (as value and as key) serialise to text
 // that parses back to the same bytes and re-serialises identically.
 //   param0 = 0: non-finite double (param1 = 1: write buffer reused after a successful serialisation)
+//   param0 = 2: write buffer constructed with every initial capacity 0..param1 (forked), optionally (param2 = 1) reused for a
+//               second document after Clear(): each of 18 document shapes (scalar roots, empty containers, empty container as
+//               last child, nesting, strings of 0/3/38 bytes, escapes, longest integers) must serialise to exactly its compact
+//               text; the engine's exact-object memory model decides that no PushUnsafe / vector store leaves the buffer
+//   param0 = 3: Serialize always reserves 18*Size()+64 bytes first, so the growth contracts (Grow(33) numbers, Grow(8) literals,
+//               Grow(3)/Grow(2) brackets, 6n+35 strings) only matter once the text outgrows that estimate: text
+//               "[[" + a x "[]," + b x "null," + T + "]]" with a in 0..param1, b in 0..4 (forked) puts each of 12 element kinds T at
+//               every distance from the end of the 82-byte (then doubled) buffer; exact text and every store inside the object
 //   param0 = 1: string of param1 bytes with at most one byte needing an escape at a symbolic position, all byte values symbolic
 #include "sonic/sonic.h"
 #include "verif.h"
@@ -31,6 +39,49 @@ extern "C" int h_ser(void) {
     std::string s = doc.Dump();
     if (s.size() != 0) verif_fail("C06: Dump of a document holding a non-finite double is not empty");
     return 1;
+  }
+  if (mode == 2) {
+    static const char* const T[] = {"true", "null", "false", "0", "-9223372036854775808", "18446744073709551615", "1.5", "\"\"", "\"abc\"",
+      "[]", "{}", "[[],{}]", "{\"a\":[],\"b\":{}}", "[1,[2,[3,[]]]]", "{\"k\":\"\\n\\\\\"}", "\"xxxxxxxxxxxxxxxxxxxxxxxxxxxxxxxxxxxxxx\"",
+      "[true,false,null]", "{\"\":{\"\":[\"\"]}}"};
+    const size_t NT = sizeof(T) / sizeof(T[0]);
+    size_t cap = verif_concrete(verif_range(0, verif_param(1), "cap"));
+    size_t i = verif_concrete(verif_range(0, NT - 1, "doc"));
+    sonic_json::WriteBuffer wb(cap);
+    {
+      Doc d; d.Parse(T[i], strlen(T[i]));
+      if (d.HasParseError()) verif_fail("harness: template does not parse");
+      if (d.Serialize(wb) != sonic_json::kErrorNone) verif_fail("C06: Serialize failed with a small initial write-buffer capacity");
+      if (wb.Size() != strlen(T[i]) || memcmp(wb.ToString(), T[i], strlen(T[i]) + 1) != 0) verif_fail("C06: wrong text with a small initial write-buffer capacity");
+    }
+    if (verif_param(2)) {
+      size_t j = verif_concrete(verif_range(0, NT - 1, "doc2"));
+      wb.Clear();
+      Doc d; d.Parse(T[j], strlen(T[j]));
+      if (d.Serialize(wb) != sonic_json::kErrorNone) verif_fail("C06: Serialize failed into a reused small write buffer");
+      if (wb.Size() != strlen(T[j]) || memcmp(wb.ToString(), T[j], strlen(T[j]) + 1) != 0) verif_fail("C06: wrong text from a reused small write buffer");
+    }
+    return 3;
+  }
+  if (mode == 3) {
+    static const char* const T[] = {"-9223372036854775808", "18446744073709551615", "-2.2250738585072014e-308", "true", "false", "null", "[]", "{}",
+      "\"\"", "\"abcdefgh\"", "[[1]]", "{\"k\":{}}"};
+    const size_t NT = sizeof(T) / sizeof(T[0]);
+    size_t a = verif_concrete(verif_range(0, verif_param(1), "a"));
+    size_t b = verif_concrete(verif_range(0, 4, "b"));
+    size_t i = verif_concrete(verif_range(0, NT - 1, "elem"));
+    static char text[1024]; size_t len = 0;
+    text[len++] = '['; text[len++] = '[';
+    for (size_t k = 0; k < a; k++) { memcpy(text + len, "[],", 3); len += 3; }
+    for (size_t k = 0; k < b; k++) { memcpy(text + len, "null,", 5); len += 5; }
+    memcpy(text + len, T[i], strlen(T[i])); len += strlen(T[i]);
+    text[len++] = ']'; text[len++] = ']'; text[len] = 0;
+    Doc d; d.Parse(text, len);
+    if (d.HasParseError()) verif_fail("harness: template does not parse");
+    sonic_json::WriteBuffer wb(verif_param(2));
+    if (d.Serialize(wb) != sonic_json::kErrorNone) verif_fail("C06: Serialize failed on a text that outgrows the size estimate");
+    if (wb.Size() != len || memcmp(wb.ToString(), text, len + 1) != 0) verif_fail("C06: wrong text when the output outgrows the size estimate");
+    return 4;
   }
   size_t n = verif_param(1);
   static uint8_t str[128];
